@@ -52,6 +52,11 @@ theorem no_buffering_stage :
     agent_flushInterval = 100000000 ∧
     Skel.calls "w.bodyWriter.Write" skel_utils_srw_Write = true := by decide
 
+/-- regenerated fact: on GCE the periodic refresh of the VM identity token fetches the new token *before* taking the
+    transport's lock; every request to the proxy (also the upload that streams a response) takes that lock to read
+    the token, so a slow or failing metadata server cannot hold back chunks that the backend has already flushed -/
+theorem identity_refresh_does_not_block_uploads : utils_identityRefreshFetchesUnderLock = false := by decide
+
 -- non-vacuity
 example : (run .rendezvous (start [[1], [2, 3]]) [.feed, .ser, .put, .rd, .send, .feed, .ser, .put, .rd, .send]).map (·.uploaded) = some [[1], [2, 3]] := by decide
 
